@@ -123,7 +123,8 @@ BOUNDED = {
     "SchedulerCore::reschedule_queue": (["b_waiters"], ["C04"], "blocked sync callers k=1..4, pool size 0 and a saturated pool of 1 (8 cases): every caller must return after the runner hands the queue back"),
     "SchedulerCore::claim_pending_queue": (["b_claim"], ["C03", "C10"], "1..3 other queues Pending in the schedule, pool of 1 busy thread (3 cases): after a blocked sync caller claims its queue the other queues must still be served"),
     "SchedulerFuture::sync": (["b_future_sync"], ["C07"], "calling contexts {plain thread, pool job, job run by a polling task with pool 0, same with a saturated pool of 1} x {operation pending, operation finished} (8 cases): .sync() returns Ok(value)"),
-    "SchedulerCore::remove_finished_threads": (["b_reap"], ["C10", "C15"], "pool of 4 threads, every non-empty proper subset killed by panicking jobs (14 cases): a job on a fresh object must run while the live threads stay blocked"),
+    "SchedulerCore::remove_finished_threads": [(["b_reap"], ["C10", "C15"], "pool of 4 threads, every non-empty proper subset killed by panicking jobs (14 cases): a job on a fresh object must run while the live threads stay blocked"),
+                                               (["b_reap_max"], ["C17"], "pools of 1..3 threads, 1..k of them killed by panicking jobs, then the maximum lowered to 0 (6 cases): no scheduling call may leave a live thread in the pool and the dead ones disappear")],
 }
 
 _NOTE = ("Safety content proved for all queue states, queue contents and lengths, future ids and thread counts; thread interleavings are "
